@@ -416,7 +416,7 @@ pub fn spec() -> PropertySpec {
     PropertySpec {
         id: "C06",
         level: "exploration",
-        rule: "write_http_response into a scripted sink (accepts 1..n bytes per call, Pending between calls and on flush, all from the tape); file bodies read through the simulated async-fs with short reads and Pending. Responses generated over status 100-999, all ContentType variants, 0-20 extra fields (token names over all tchar, printable-ASCII+HTAB values, names colliding case-insensitively with content-type/content-length/transfer-encoding once and twice), close flag, body in {static str, static bytes, Vec, File, TempFile (in a quarter of the runs the file on disk is longer than the recorded length), event stream with 0-5 queued events whose chunk sizes mix 1 to 4 hex digits}; large stage uses sizes {65535, 65536, 65537, 200000, 1 MiB+1, 3 MiB}. Oracle: independent strict response parser must recover status, application fields in order, body; automatic-field rules; refusal with zero bytes written when a framing/automatic field would be duplicated; identical parsed content under a second sink schedule. distinct = hash of the generated response spec; non-trivial = has extra fields or a body.",
+        rule: "write_http_response into a scripted sink (accepts 1..n bytes per call, Pending between calls and on flush, all from the tape); file bodies read through the simulated async-fs with short reads and Pending. Responses generated over status 100-999, all ContentType variants, 0-20 extra fields (token names over all tchar, printable-ASCII+HTAB values, names colliding case-insensitively with content-type/content-length/transfer-encoding once and twice), close flag, body in {static str, static bytes, Vec, File, TempFile (in a quarter of the runs the file on disk is longer than the recorded length), event stream with 0-5 queued events whose chunk sizes mix 1 to 4 hex digits}; large stage uses sizes {65535, 65536, 65537, 200000, 1 MiB+1, 3 MiB}. Oracle: independent strict response parser must recover status, application fields in order, body; automatic-field rules; refusal with zero bytes written when a framing/automatic field would be duplicated; identical parsed content under a second sink schedule. distinct = hash of the generated response spec; non-trivial = has extra fields or a body. One small run in ten has a single transient Interrupted error in the sink: a serialiser that gives up says nothing, one that reports success must have produced exactly the right bytes.",
         scenarios: vec![
             Scenario { name: "c06.small", property: "C06", func: small, runs_quick: 2_000_000, runs_thorough: 40_000_000, doc: "small bodies, all variants" },
             Scenario { name: "c06.large", property: "C06", func: large, runs_quick: 2_000, runs_thorough: 40_000, doc: "bodies around 64 KiB .. 3 MiB" },
